@@ -29,7 +29,7 @@ class Driver:
         self.live = {}  # slot -> set of images loaded since the tree was put there
         self.prev_open = None
         self.prev_load = None
-        self.w = dict(open=30, load=20, mutate=8, copy=4, drop=3, cli=8, redeliver=5, damage=6, restore=4, delete=4, tear=5, cachedir=3)
+        self.w = dict(open=30, load=20, mutate=8, copy=4, drop=3, cli=8, redeliver=5, damage=6, restore=4, delete=4, tear=5, cachedir=3, purge=3)
         self.w.update(profile or {})
 
     def next_op(self):
@@ -116,6 +116,11 @@ class Driver:
     def _tear(self):
         return self._cell("tear")
 
+    def _purge(self):
+        if not self.cache_ok:
+            return None
+        return {"op": "purge", "scope": self.r.choice(list(self.locs) + ["all"])}
+
     def _cachedir(self):
         return {"op": "cachedir", "usable": not self.cache_ok}
 
@@ -198,12 +203,13 @@ def validate(chk, results, own, path):
                 n += 1
     r = tlc.run_ok("Trace_Alos2", "Trace_Alos2", workers=1, env={"TRACE_FILE": path}, timeout=3000)
     chk.tlc_stats(r)
-    verdicts = {int(m.group(1)): (m.group(2), int(m.group(3)), m.group(4)) for m in re.finditer(r'<<"VERDICT", (\d+), "(\w+)", (\d+), "([^"]*)">>', r.out)}
+    verdicts = {int(m.group(1)): (m.group(2), int(m.group(3)), m.group(4), int(m.group(5))) for m in re.finditer(r'<<"VERDICT", (\d+), "(\w+)", (\d+), "([^"]*)", (\d+)>>', r.out)}
     if len(verdicts) != len(results):
         raise checklib.Machinery(f"Trace_Alos2: {len(verdicts)} verdicts for {len(results)} traces\n" + r.out[-1500:])
     drift, others = 0, {}
-    for tid, (st, line, clause) in verdicts.items():
+    for tid, (st, line, clause, nd) in verdicts.items():
         res = results[tid - 1]
+        drift += nd
         if st != "rejected":
             continue
         k = line - start[tid]  # 1-based line within the trace (hdr = 1)
@@ -244,5 +250,5 @@ def run(chk, n_traces, steps, own, profile=None, locs=("P", "Q"), versions=(0, 1
     if others:
         chk.note(f"recorded sessions: rejections of classes owned by other properties: {others}")
     if drift:
-        chk.note(f"DRIFT (recorded sessions): {drift} traces leave the Design model in the cache-cell state (informational)")
+        chk.note(f"DRIFT (recorded sessions): {drift} steps where the real cache cells differ from the Design's; the logged cells were adopted and validation went on")
     return results, verdicts
